@@ -672,6 +672,29 @@ fn convert_rpx_in_block(
             let input = &mut StepParser::wrap(nested_input);
             let mut prev_token: Option<StepToken> = None;
             loop {
+                // the meaning of a unicode-range (`U+26`, `U+0-7F`, `U+4??`) is in its spelling,
+                // which is lost if it is written token by token: copy it from the source
+                let peek = if skip_whitespace {
+                    input.peek()
+                } else {
+                    input.peek_including_whitespace()
+                };
+                if let Ok(peek) = peek {
+                    if matches!(&*peek, Token::Ident(x) if x.eq_ignore_ascii_case("u")) {
+                        let unicode_range = input.try_parse(|input| {
+                            input.skip_whitespace();
+                            let start = cssparser::Parser::position(input);
+                            cssparser::UnicodeRange::parse(input)?;
+                            Ok::<_, cssparser::BasicParseError>(input.slice_from(start).to_string())
+                        });
+                        if let Ok(s) = unicode_range {
+                            ss.current_output_mut()
+                                .append_source_slice(&s, peek.position);
+                            prev_token = None;
+                            continue;
+                        }
+                    }
+                }
                 let next = if skip_whitespace {
                     input.next()?
                 } else {
